@@ -1,4 +1,52 @@
-import Jamm.Proofs.SpecLemmas
+/-
+C16 — open options change performance, not behaviour.
+
+* The specification (`Jamm/Model/Spec.lean`) has no configuration parameter at all, and every Layer
+  Q/T theorem (C01, C07, C08) is stated for arbitrary trees, i.e. for whatever node sizes a page size
+  produces: behaviour is a function of the history only.  The correspondence run replays the same
+  histories under the product of page sizes, initial page counts, strict mode and map-populate and
+  compares each with the single specification run.
+* The tunables the code derives thresholds from are regenerated from /repo/src and must satisfy the
+  validity predicate the theorems assume (`params_valid`).
+* Growth arithmetic (`tx.rs:299-307`): the computed extension always covers the required size, for
+  every current size, requirement and step (`growth_covers`), in whole steps (`growth_whole_steps`).
+-/
+import Jamm.Gen.Params
+import Jamm.Gen.Steps
+set_option linter.unusedSectionVars false
+
 namespace Jamm.Props.C16
-theorem placeholder : True := trivial
+open Jamm
+
+theorem params_valid : Gen.params.Valid := by decide
+
+/-- `alloc_size = ((size_diff / MIN_ALLOC_SIZE) + 1) * MIN_ALLOC_SIZE`, new length `= current + alloc_size` -/
+def grownSize (current required minAlloc : Nat) : Nat :=
+  if current < required then current + (((required - current) / minAlloc) + 1) * minAlloc else current
+
+theorem growth_covers (current required minAlloc : Nat) (hm : 0 < minAlloc) :
+    required ≤ grownSize current required minAlloc := by
+  unfold grownSize
+  split
+  · rename_i h
+    have h1 : (required - current) < ((required - current) / minAlloc + 1) * minAlloc := by
+      have := Nat.lt_div_mul_add (a := required - current) hm
+      rw [Nat.add_mul, Nat.one_mul]
+      exact this
+    omega
+  · omega
+
+theorem growth_whole_steps (current required minAlloc : Nat) :
+    minAlloc ∣ (grownSize current required minAlloc - current) := by
+  unfold grownSize
+  split
+  · rw [Nat.add_sub_cancel_left]; exact Nat.dvd_mul_left _ _
+  · simp
+
+/-- the file is grown before any page is written, in every regenerated commit order -/
+theorem grow_before_writes : before Gen.commitSteps .grow .writeData = true := by decide
+
+/-- non-vacuity -/
+example : grownSize 4096 (9 * 1024 * 1024) Gen.params.minAllocSize = 4096 + 16 * 1024 * 1024 := by decide
+
 end Jamm.Props.C16
